@@ -38,6 +38,25 @@ def rules(ctx, db):
         ctx.ob("R1", "handle-detached-or-awaited", ok,
                "after spawning a dispatched task the worker detaches its handle or awaits it on every path back to the "
                "receive (never an implicit drop, which would cancel the task)", f)
+        # the loop is left only through the Err result of the receive (channel closed *and* drained)
+        from ..util import loop_exits, value_switches
+        rp = [(bb, t) for bb, t in calls(f, r"core::future::future::Future::poll$") if t.get("ga") and "RecvFut" in t["ga"][0]]
+        okx = False
+        detail = "receive poll not found"
+        if rp:
+            le = loop_exits(f, rp[0][0])
+            if le is None:
+                detail = "the receive is not in a loop"
+            else:
+                scc, exits = le
+                sws = {sw["bb"] for sw in value_switches(f, rp[0][1]["dst"]["l"])}
+                bad = [(s_, t_) for s_, t_ in exits if s_ not in sws]
+                okx = bool(exits) and not bad
+                detail = "%d loop exit(s), all on the receive result" % len(exits) if okx else \
+                    "loop exit(s) not decided by the receive result: %s" % ", ".join("bb%d->bb%d" % e for e in bad)
+        ctx.ob("R1", "worker-leaves-only-on-closed-and-drained-channel", okx,
+               "the worker loop is left only through the Err result of recv_async (the channel reports Err only when every "
+               "sender is gone AND the queue is empty, so every accepted closure is started): " + detail, f)
         ctx.ob("R1", "sequential-awaits-before-next", bool(aw) and bool(rc) and all(rc[0] in f.cfg.reach_set([a]) for a in aw),
                "in sequential mode the task is awaited to completion before the next one is received", f)
     jn = [f for f in db.fns.values() if f.id.startswith("compio_dispatcher::") and "::join::" in f.id and f.kind == "coroutine"]
